@@ -136,3 +136,12 @@ def duration_amount(t, unit, prefix):
     if unit == 'M':
         return t.minutes
     return t.seconds
+
+
+def dict_of_present(k1, v1, p1, k2, v2, p2):
+    out = {}
+    if p1:
+        out[k1] = v1
+    if p2:
+        out[k2] = v2
+    return out
